@@ -2,11 +2,11 @@
 import collections
 
 PROP = "C14"
-LEAN_MODS = ["Cte.Props.C14"]
 HARNESS = "c14"
 N = {"quick": 4000, "thorough": 0}     # thorough: every single edit of every base model (exhaustive)
-USES_DRIVER = False
-CORRESPONDENCES = []
+LEAN_MODS = ["Cte.Props.C14", "Cte.Props.C14Sane"]
+CORRESPONDENCES = ["on models the harness calls sane (one in three): when the sanity test of the theorem holds (saneU, evaluated by the driver), the "
+                   "model has no U-value with a failed division (as saneU_nfWalls_empty proves) and the implementation reports no non-finite number"]
 RULE = ("every model reachable from the 7 shipped model files, generated models (with geometric positions, shades, schedules) and "
         "editor-minimal models grown element by element, by 1..3 structural edits of the JSON tree (delete key/item, empty, duplicate "
         "or truncate an array, nil or redirect an id, zero or negate a number); quick: seeded sample; thorough: all single edits; "
@@ -25,7 +25,23 @@ _sites = collections.Counter()
 
 
 def compare(case, out):
-    return []
+    if case.get("op") != "saneu":
+        return []
+    if "sane_u" not in out:
+        return [(CORRESPONDENCES[0], f"model gave {str(out)[:160]}")]
+    _stats["sane_models_given_to_the_model"] += 1
+    res = []
+    if out["sane_u"]:
+        _stats["sane_models_on_which_the_theorem_applies"] += 1
+        _stats["walls_proved_finite"] += out.get("with_u", 0)
+        if out["nf_walls"]:
+            res.append((CORRESPONDENCES[0], f"{case['label']}: saneU holds but the model lists failed divisions at {out['nf_walls'][:3]}"))
+        if case["impl"].get("non_finite_at"):
+            res.append((CORRESPONDENCES[0], f"{case['label']}: saneU holds (no failed division in the model) but the implementation reports a non-finite number at "
+                        f"{case['impl']['non_finite_at']}"))
+    elif out["nf_walls"]:
+        _stats["sane_models_with_a_failed_division_in_the_model"] += 1
+    return res
 
 
 def oracle(case):
